@@ -12,7 +12,7 @@ import re
 
 import vlib
 
-PROPS = ['Rangers.Props.C12Facts', 'Rangers.Props.C12', 'Rangers.Props.C12B', 'Rangers.Props.C12C']
+PROPS = ['Rangers.Props.C12Facts', 'Rangers.Props.C12', 'Rangers.Props.C12B', 'Rangers.Props.C12C', 'Rangers.Props.C12D', 'Rangers.Props.C12E']
 DRIVERS = ['C12']
 META = dict(
     level='proof',
@@ -53,8 +53,18 @@ def _nontrivial(op, ans):
 
 def correspond(ctx):
     n = 1500 if ctx.thorough() else 220
-    c = vlib.correspond(ctx, 'c12', 'C12', ['n=%d' % n], timeout=1500, nontrivial=_nontrivial)
+    c = vlib.correspond(ctx, 'c12', 'C12', ['n=%d' % n], timeout=1500, nontrivial=_nontrivial,
+                        canon=lambda op, ans: '' if op == 'branchstats' else ans)
     c['name'] = 'frame-trees'
+    # branch statistics of the model over this run (which outcome of every frame entry point was produced how often)
+    try:
+        for line in open(c['paths']['mod'], errors='replace'):
+            if line.startswith('branches '):
+                br = dict(kv.split('=') for kv in line.split()[1:])
+                if isinstance(c.get('stats'), dict):
+                    c['stats']['model_branches'] = {k: int(v) for k, v in br.items()}
+    except Exception:
+        pass
     viol = []
     for p in c.get('panics', []):
         viol.append(dict(key='panic', desc='implementation panicked on ' + p['op'][:200] + ': ' + p['impl'][:200],
